@@ -417,6 +417,9 @@ class Rule(object):
 
     def _validate_float_range_content(self, node: Node, minmax, errs: list = None):
         self._validate_float_content(node, errs)
+        if not Rule.is_float(node.content):
+            # Absent or non-float content has no value to range-check
+            return
         float_val = float(node.content)
         if float_val < minmax[0] or float_val > minmax[1]:
             msg = f'Node "{node.name}" content should be in range {minmax}'
@@ -438,6 +441,9 @@ class Rule(object):
         self, node: Node, errs: list = None
     ):
         self._validate_float_content(node, errs)
+        if not Rule.is_float(node.content):
+            # Absent or non-float content has no value to range-check
+            return
         float_val = float(node.content)
         if float_val < 0:
             msg = f'Node "{node.name}" content should be non-negative'
